@@ -48,9 +48,12 @@ def check(ctx):
 
 
 def _r1(ctx, pkg):
-    hf = pkg.method("Reaction", "__hash__")
-    ef = pkg.method("Reaction", "__eq__")
-    rp = pkg.method("Reaction", "rpeq")
+    hf0, ef0, rp0 = (pkg.method("Reaction", m) for m in ("__hash__", "__eq__", "rpeq"))
+    # read with the small helpers they were split into put back (methods / staticmethods of the class, functions of the module): a
+    # key or a comparison moved into `_multiset(species)` / `_same_species(a, b)` is the same key, the same comparison
+    hf = pkg.expanded("Reaction", "__hash__", keep=("rpeq",))
+    ef = pkg.expanded("Reaction", "__eq__", keep=("rpeq",))
+    rp = pkg.expanded("Reaction", "rpeq")
     ctx.saw(RF, "Reaction.__hash__")
 
     def res(name):
@@ -62,14 +65,22 @@ def _r1(ctx, pkg):
         while todo:
             x = todo.pop()
             for c in ast.walk(x):
-                if isinstance(c, ast.Call) and isinstance(c.func, ast.Attribute) and isinstance(c.func.value, ast.Name) and c.func.value.id == "self":
-                    h = res(c.func.attr)
-                    if h is not None and not any(h is y for y in out) and h not in (hf, ef, rp):
+                # a helper called on self, or read as an attribute (a property of the class that returns the key)
+                if isinstance(c, ast.Attribute) and isinstance(c.value, ast.Name) and c.value.id == "self":
+                    h = res(c.attr)
+                    if h is not None and not any(h is y for y in out) and h not in (hf, ef, rp, hf0, ef0, rp0):
                         out.append(h)
                         todo.append(h)
         return out
-    reads = attrs_read_deep(hf, res)
-    compared = attrs_read_deep(ef, res) | attrs_read_deep(rp, res)
+    def reads_of(fn):
+        """self.<attr> reads of the method and of the helpers / properties of the class it goes through (their names are not attributes)"""
+        out = set()
+        for part in pieces(fn):
+            me = part.args.args[0].arg if part.args.args else "self"
+            out |= {a for a in attrs_read(part, me) if res(a) is None}
+        return out
+    reads = reads_of(hf)
+    compared = reads_of(ef) | reads_of(rp) | attrs_read_deep(ef0, res) | attrs_read_deep(rp0, res)
     extra = sorted(reads - compared)
 
     def opaque(*fns):
@@ -165,8 +176,11 @@ def _r1(ctx, pkg):
     if not sorts:
         src = "\n".join(ast.unparse(part) for part in pieces(hf))
         multiset = "Counter(" in src or "frozenset" in src
-        if not multiset and opaque(hf):
-            ctx.unrec("R1", "Reaction.__hash__:order-free", (RF, hf.lineno), f"how the hash combines the species is hidden behind {opaque(hf)}")
+        # understood and wrong: a side enters the hash as the sequence it is (bare, or under tuple / list / str / repr / a slice);
+        # any other way of combining the species (a sum / xor of their hashes ...) is not read
+        ordered = re.search(r"\b(tuple|list|str|repr)\(self\.(reactants|products)\)|hash\(\(?\s*self\.(reactants|products)\b|[(,]\s*self\.(reactants|products)\s*[,)]", src)
+        if not multiset and (opaque(hf) or not ordered):
+            ctx.unrec("R1", "Reaction.__hash__:order-free", (RF, hf.lineno), f"how the hash combines the species is not read ({opaque(hf) or src[-80:]})")
         else:
           ctx.check(multiset, "R1", "Reaction.__hash__:order-free", (RF, hf.lineno),
                     "the hash is built from order-free multisets of species (consistent with rpeq's Counter comparison)" if multiset else
@@ -234,13 +248,68 @@ def _mode_leaf(v, m):
     return v
 
 
+def _setdefault_as_branches(fn):
+    """A copy of the function in which the statement `T.setdefault(K, []).append(X)` (T, K plain names) is written as the two arms
+    it abbreviates -- `if K not in T: T[K] = [X]` / `else: T[K].append(X)` -- so that the table idiom is read like the explicit test."""
+    import copy
+
+    def name(e):
+        return isinstance(e, ast.Name)
+
+    class T(ast.NodeTransformer):
+        def visit_Expr(self, st):
+            c = st.value
+            if isinstance(c, ast.Call) and isinstance(c.func, ast.Attribute) and c.func.attr == "append" and len(c.args) == 1 and not c.keywords \
+                    and isinstance(c.func.value, ast.Call) and isinstance(c.func.value.func, ast.Attribute) and c.func.value.func.attr == "setdefault" \
+                    and len(c.func.value.args) == 2 and not c.func.value.keywords and name(c.func.value.func.value) and name(c.func.value.args[0]):
+                tab, key, dflt = c.func.value.func.value, c.func.value.args[0], c.func.value.args[1]
+                empty = (isinstance(dflt, ast.List) and not dflt.elts) or (isinstance(dflt, ast.Call) and name(dflt.func) and dflt.func.id == "list" and not dflt.args and not dflt.keywords)
+                if empty and not any(isinstance(n, ast.Name) and n.id == tab.id for n in ast.walk(c.args[0])):
+                    L, S = ast.Load(), ast.Store()
+                    new = ast.If(test=ast.Compare(left=ast.Name(id=key.id, ctx=L), ops=[ast.NotIn()], comparators=[ast.Name(id=tab.id, ctx=L)]),
+                                 body=[ast.Assign(targets=[ast.Subscript(value=ast.Name(id=tab.id, ctx=L), slice=ast.Name(id=key.id, ctx=L), ctx=S)],
+                                                  value=ast.List(elts=[copy.deepcopy(c.args[0])], ctx=L))],
+                                 orelse=[ast.Expr(value=ast.Call(func=ast.Attribute(value=ast.Subscript(value=ast.Name(id=tab.id, ctx=L), slice=ast.Name(id=key.id, ctx=L), ctx=L),
+                                                                                    attr="append", ctx=L), args=[copy.deepcopy(c.args[0])], keywords=[]))])
+                    return ast.fix_missing_locations(ast.copy_location(new, st))
+            return st
+    if not any(isinstance(n, ast.Attribute) and n.attr == "setdefault" for n in ast.walk(fn)):
+        return fn
+    return T().visit(copy.deepcopy(fn))
+
+
+def _tests_after_store(fn, st, facts, table):
+    """statements of the scan loop's body that follow the one holding the store `st` (whose arm does not leave the iteration), test
+    the table by name and hold one of `facts`"""
+    def holds(stmt, f):
+        if f.node is not None and any(n is f.node for n in ast.walk(stmt)):
+            return True
+        return f.node is None and stmt.lineno <= f.line <= getattr(stmt, "end_lineno", stmt.lineno)
+    loops = [n for n in ast.walk(fn) if isinstance(n, ast.For) and any(holds(x, st) for x in n.body)]
+    if not loops:
+        return []
+    loop = min(loops, key=lambda n: sum(1 for _ in ast.walk(n)))
+    i = next(k for k, x in enumerate(loop.body) if holds(x, st))
+    top = loop.body[i]
+    if isinstance(top, ast.If):
+        arm = top.body if any(holds(x, st) for x in top.body) else top.orelse
+        if arm and isinstance(arm[-1], (ast.Continue, ast.Return, ast.Break, ast.Raise)):
+            return []
+    out = []
+    for later in loop.body[i + 1:]:
+        tests = [n.test for n in ast.walk(later) if isinstance(n, (ast.If, ast.IfExp, ast.While))]
+        if any(isinstance(x, ast.Name) and x.id == table for t in tests for x in ast.walk(t)) and any(holds(later, f) for f in facts):
+            out.append(later)
+    return out
+
+
 def _r3(ctx, pkg):
     pkg.method("Network", "find_duplicate_reaction")
     ctx.saw(NF, "Network.find_duplicate_reaction")
     # the scan with the private helpers it was split into put back (statement helpers: the loop over the check list); small pure
     # helpers of the class (e.g. the construction of the check list) are read through as values
-    fn = pkg.expanded("Network", "find_duplicate_reaction")
-    fl = Flow(fn, NF, resolver=lambda name: pkg.resolve("Network", name)[1])
+    fn = _setdefault_as_branches(pkg.expanded("Network", "find_duplicate_reaction"))
+    fl = Flow(fn, NF, resolver=lambda name: pkg.resolve("Network", name)[1], func_resolver=lambda name: pkg.functions.get((NF, name)))
     W = (NF, fn.lineno)
     RL = ("attr", SELF, "reaction_list")
     # the locals by role: (DUPES, DUPIDX, first) is the returned tuple; SEEN is the table `first` is read from (or, failing
@@ -382,6 +451,10 @@ def _r3(ctx, pkg):
                 continue
             inc = x in (("binop", "Add", cur, ONE), ("binop", "Add", ONE, cur))
             mods.append((k_, path, "inc" if inc else "set", x, st))
+    tries = [t for lp_ in ast.walk(fn) if isinstance(lp_, (ast.For, ast.While)) for t in ast.walk(lp_) if isinstance(t, ast.Try)]
+    if tries and any(t.lineno <= f.line <= getattr(t, "end_lineno", t.lineno) for t in tries for f in stores + reports):
+        ctx.unrec("R3", "find_duplicate_reaction", (NF, tries[0].lineno), "the scan decides with exception handling (try / except), which this rule does not read as a test of the table")
+        return
     # whatever the shape of the table: an entry written for a key that is already there, with a value that does not
     # build on the old entry, forgets the first occurrence -- and `first` / the report are derived from the table
     for st in fresh:
@@ -395,6 +468,13 @@ def _r3(ctx, pkg):
         ctx.bad("R3", "store only when unseen", (NF, st.line), "the first-seen table is overwritten for a key that is already in it: the recorded occurrence is the previous one, not the first "
                 "(classes of three or more members report a wrong first member)", expected="if chk not in seen: seen[chk] = [idx]",
                 found="; ".join(("" if p else "not ") + show(g)[:60] for g, p in g_) or "unguarded store")
+    # guards are read without regard to the order of statements: a test of the table that runs AFTER the statement that enters the key
+    # in the same iteration (`seen.setdefault(k, []).append(i)` first, `if k in seen:` later) sees the table already changed -- not read
+    if len(fresh) == 1:
+        stale = _tests_after_store(fn, fresh[0], [f for f in fl.facts if f.kind in ("append", "call", "store", "augstore", "attrstore") and f is not fresh[0]], SEEN)
+        if stale:
+            ctx.unrec("R3", "find_duplicate_reaction", (NF, stale[0].lineno), f"`{SEEN}` is tested again after the statement that enters the key in the same iteration: the order of the two is not read")
+            return
     nrep = 2 if derived is None else 1
     if len(fresh) != 1 or len(reports) != nrep or not mods or opaque:
         ctx.unrec("R3", "find_duplicate_reaction", W, f"first-seen table not recognised (stores {len(fresh)}, report appends {len(reports)}, growth {len(mods)})")
@@ -421,8 +501,21 @@ def _r3(ctx, pkg):
         else:
             ctx.unrec("R3", "loop", (NF, lp.line if lp else fn.lineno), f"the scan is not a loop over enumerate(<check list>): {show(it)[:100] if it else 'no single loop around the store'}")
             return
-    ctx.check(cguards(st) == [(SEENK, False)], "R3", "store only when unseen", (NF, st.line),
-              "a key enters `seen` exactly when it was not there", expected="if chk not in seen: seen[chk] = [idx]", found="; ".join(show(g)[:60] for g, _ in cguards(st)))
+    # understood and wrong: ONE test that has nothing to do with the table stands in front of everything the scan does with an entry (the
+    # store, the reports and the growth alike): entries of the check list are skipped before they are looked up -- the original visits all
+    scan_facts = [st] + list(reports) + [m[4] for m in mods]
+    common = [g for g in cguards(st) if g[0] != SEENK and not about_table(g[0]) and all(g in cguards(f) for f in scan_facts)]
+    if common:
+        ctx.bad("R3", "loop", (NF, lp.line if lp else st.line), "entries of the check list are skipped by a test that does not concern the first-seen table, before they are looked up: "
+                "a repeated reaction that fails the test is neither entered nor reported", expected="every entry of the check list is looked up in `seen`",
+                found="; ".join(("" if p_ else "not ") + show(g)[:70] for g, p_ in common))
+        return
+    # (the store IS in the not-seen arm -- checked above; a further guard on it is not evaluated: it may always hold)
+    if cguards(st) == [(SEENK, False)] or all(g == (SEENK, False) for g in cguards(st)):
+        ctx.ok("R3", "store only when unseen", (NF, st.line), "a key enters `seen` exactly when it was not there")
+    else:
+        ctx.unrec("R3", "store only when unseen", (NF, st.line), "the store of a new key is additionally guarded by a test this rule does not evaluate: " +
+                  "; ".join(("" if p_ else "not ") + show(g)[:60] for g, p_ in cguards(st) if (g, p_) != (SEENK, False)))
     idx = ("idx", chk, lp.id) if lp else None
     # the two projections `first` reads off an entry: FIRST (the position the key was entered at) and COUNT (compared with 1)
     rets = [f for f in fl.facts if f.kind == "return"]
@@ -486,6 +579,11 @@ def _r3(ctx, pkg):
     if P_first not in fields or P_count not in fields:
         ctx.unrec("R3", "stored list non-empty", (NF, st.line), f"the entry created for a new key has no projection {P_first if P_first not in fields else P_count}: {show(simp(st.value))[:80]}")
         return
+    # understood and wrong: the count starts at another constant, the first position is a constant / arithmetic on the counter; other values are not read
+    f1_, c1_ = fields.get(P_first), fields.get(P_count)
+    if not (f1_ == idx and c1_ == ONE) and not ((f1_ == idx or f1_[0] in ("const", "binop")) and (c1_ == ONE or c1_[0] == "const")):
+        ctx.unrec("R3", "stored list non-empty", (NF, st.line), f"the entry created for a new key is not read as (current position, one occurrence): {show(simp(st.value))[:80]}")
+        return
     ctx.check(fields.get(P_first) == idx and fields.get(P_count) == ONE, "R3", "stored list non-empty", (NF, st.line),
               "a new entry records the current position as the first one and counts one occurrence ([idx], or a record (idx, 1))",
               expected="seen[chk] = [idx]", found=f"{show(simp(st.value))[:60]}: first position {show(fields[P_first])[:30] if P_first in fields else '?'}, "
@@ -548,7 +646,14 @@ def _r3(ctx, pkg):
         if not m or m[2] != ("acc", DUPIDX):
             ctx.unrec("R3", "report values", (NF, i.line), f"the reported reactions are neither appended with the positions nor a map over them: {show(derived)[:100]}")
         else:
-            ctx.check(simp(i.value) == idx and m[1] == ("sub", RL, m[0]) and not m[3], "R3", "report values", (NF, i.line),
+            iv = simp(i.value)
+            okv = iv == idx and m[1] == ("sub", RL, m[0]) and not m[3]
+            wrong = (iv != idx and (iv[0] in ("const", "binop", "sub") or entry_of(iv) is not None)) or bool(m[3]) or \
+                (iv == idx and m[1][0] == "sub" and (m[1][1] == RL or m[1][2] == m[0]))
+            if not okv and not wrong:
+                ctx.unrec("R3", "report values", (NF, i.line), f"the reported pair is not read as (reactions[idx], idx): {show(derived)[:60]} / {show(iv)[:40]}")
+            else:
+              ctx.check(simp(i.value) == idx and m[1] == ("sub", RL, m[0]) and not m[3], "R3", "report values", (NF, i.line),
                       "the reported pair is (reactions[idx], idx) of the current entry", found=f"{show(derived)[:60]} / {show(simp(i.value))[:40]}")
     # the count grows by exactly one at every later occurrence: one increment, in the seen arm, unconditionally
     if len(cnt) != 1:
@@ -557,6 +662,17 @@ def _r3(ctx, pkg):
     gk, _, gkind, gv, g = cnt[0]
     gg = cguards(g)
     ok_g = len(cnt) == 1 and gkind == "inc" and gg == [(SEENK, True)] and gk == key and (P_count != ("len",) or gv == idx)
+    # understood and wrong: the count is set instead of incremented, grows outside the seen arm / in the not-seen arm, or another value
+    # than the position is appended; a further guard in the seen arm, or another key, is not evaluated
+    unread_g = [x for x in gg if x[0] != SEENK]
+    def sized_(x):
+        b_ = match(("cmp", (V("op"),), (V("y"), ("const", V("n")))), x)
+        return bool(b_) and projection(b_["y"], ENTRY) == P_count
+    # (a guard that compares the entry's own count with a constant IS read: the count then stops growing at some point)
+    unread_g = [x for x in unread_g if not sized_(x[0])]
+    if not ok_g and gkind == "inc" and (unread_g or gk != key):
+        ctx.unrec("R3", "seen arm appends index", (NF, g.line), "the growth of an entry is guarded by a test this rule does not evaluate: " + "; ".join(("" if p_ else "not ") + show(x)[:60] for x, p_ in unread_g))
+        return
     ctx.check(ok_g, "R3", "seen arm appends index", (NF, g.line), "every later occurrence appends its index to the key's list (adds one to the key's count), unconditionally",
               found="; ".join(f"line {m[4].line}: {m[2]} {show(m[3])[:30]} if " + " and ".join(("" if p_ else "not ") + show(x)[:40] for x, p_ in cguards(m[4])) for m in cnt))
     # first
@@ -584,10 +700,18 @@ def _r3(ctx, pkg):
                     "brief mode compares Reaction(reactants, products): the multisets of species, nothing else" if ok_b else
                     "brief mode does not compare the reactant/product lists themselves (multiplicity or order information is lost or added)",
                     expected="[Reaction(re.reactants, re.products) for re in reactions]", found=show(brief)[:120])
-        ok_s = leaves["none"] == RL
+        none_ = leaves["none"]
+        if none_[0] == "copy" or (none_[0] == "call" and none_[1] in (("global", "list"), ("global", "tuple")) and len(none_[2]) == 1 and not none_[3]) \
+                or (none_[0] == "sub" and none_[2] == ("slice", ("const", None), ("const", None), ("const", None))):
+            none_ = none_[1] if none_[0] in ("copy", "sub") else none_[2][0]          # the same elements in the same order
+        ok_s = none_ == RL
         if ok_s:
             m2 = as_map(leaves["text"])
             ok_s = bool(m2) and m2[2] == RL and not m2[3] and m2[1][0] == "fstr" and len(m2[1][1]) == 1 and m2[1][1][0][0] == "fmt" and m2[1][1][0][1] == m2[0]
+            # format(react, mode) is f"{react:{mode}}"
+            if not ok_s and bool(m2) and m2[2] == RL and not m2[3] and m2[1][0] == "call" and m2[1][1] == ("global", "format") and len(m2[1][2]) == 2 and not m2[1][3] \
+                    and m2[1][2][0] == m2[0] and m2[1][2][1] == ("param", "mode"):
+                ok_s = True
         m3 = as_map(leaves["text"])
         read = leaves["none"][0] in ("attr", "comp", "list", "call") and bool(m3) and m3[2] == RL and m3[1][0] in ("fstr", "attr", "const", "tuple")
         if ok_s or read:
@@ -598,50 +722,98 @@ def _r3(ctx, pkg):
     else:
         ctx.unrec("R3", "check_list", W, f"mode dispatch not recognised: {show(chk)[:100]}")
     # the formatted names are in a total order (by name)
-    ff = pkg.method("Reaction", "__format__")
+    _format_order(ctx, pkg)
+
+
+def _names_order(v, attr):
+    """How the list of names `v` printed for self.<attr> is ordered: True = in name order (sorted() of the species -- Species.__lt__,
+    R7 -- or of the names, or an explicit key that is the name); False = understood and NOT a total order on the names (input order, or
+    an explicit key that is another attribute); None = not a list of the names of self.<attr> this rule reads."""
+    SIDE = ("attr", SELF, attr)
+
+    def key_is_name(k):
+        """True: the key is the name; False: another attribute of the species; None: not read"""
+        if k[0] == "lambda" and len(k[1]) == 1 and k[2][0] == "attr" and k[2][1] == k[1][0]:
+            return k[2][2] == "name"
+        if k[0] == "call" and k[1] in (("global", "attrgetter"), ("attr", ("global", "operator"), "attrgetter")) and len(k[2]) == 1 and not k[3] \
+                and k[2][0][0] == "const" and isinstance(k[2][0][1], str):
+            return k[2][0][1] == "name"
+        return None
+
+    def ordered(base):
+        """the species of the side, ordered: True / False / None as above"""
+        if base == SIDE:
+            return False                                   # input order
+        if base[0] == "copy" and base[1] == SIDE:
+            return False
+        if base[0] == "call" and base[1] == ("global", "sorted") and len(base[2]) == 1 and base[2][0] in (SIDE, ("copy", SIDE)):
+            kw = dict(base[3])
+            if not kw:
+                return True
+            if set(kw) == {"key"}:
+                return key_is_name(kw["key"])
+        return None
+    m = as_map(v)
+    if m and m[1] == ("attr", m[0], "name") and not m[3]:
+        return ordered(m[2])
+    if v[0] == "call" and v[1] == ("global", "sorted") and len(v[2]) == 1 and not v[3]:
+        m = as_map(v[2][0])
+        if m and m[1] == ("attr", m[0], "name") and not m[3] and m[2] == SIDE:
+            return True                                    # the names themselves, sorted
+    return None
+
+
+def _format_order(ctx, pkg):
+    ff0 = pkg.method("Reaction", "__format__")
     ctx.saw(RF, "Reaction.__format__")
-    ffl = Flow(ff, RF)
+    # with the helpers it was split into put back (a `_sorted_names(species)` method / staticmethod / module function, properties of
+    # the class that return the lists): the same statements wherever they were moved
+    ff = pkg.expanded("Reaction", "__format__")
+    res = lambda name: pkg.resolve("Reaction", name)[1]
+    ffl = Flow(ff, RF, resolver=res, func_resolver=lambda name: pkg.functions.get((RF, name)))
+    ci = pkg.cls("Reaction")
+    props = {}
+    for c in pkg.mro("Reaction"):
+        cc = pkg.classes.get(c)
+        for nm, fn in (cc.methods.items() if cc else ()):
+            if nm not in props and isinstance(fn, ast.FunctionDef) and any(ast.unparse(d) in ("property", "functools.cached_property", "cached_property") for d in fn.decorator_list):
+                props[nm] = fn
+
+    def through_props(v, depth=0):
+        """`self.<property>` replaced by the value the property returns (one return, read by Flow)"""
+        hit = {x for x in walk(v) if isinstance(x, tuple) and len(x) == 3 and x[0] == "attr" and x[1] == SELF and x[2] in props}
+        if not hit or depth > 2:
+            return v
+        m = {}
+        for x in hit:
+            pf = Flow(props[x[2]], RF, resolver=res, func_resolver=lambda name: pkg.functions.get((RF, name)))
+            rets = [simp(f.value) for f in pf.facts if f.kind == "return"]
+            if len(rets) == 1:
+                m[x] = through_props(rets[0], depth + 1)
+        return simp(subst(v, m)) if m else v
     for nm, attr in (("rnames", "reactants"), ("pnames", "products")):
-        # by role: the local whose first value is built from self.<attr>
-        a = next((lst for lst in ffl.assigns.values() if lst and any(x == ("attr", SELF, attr) for x in walk(simp(lst[0][0])))), [])
-        ok = False
-        found = ""
-        if a:
-            v = simp(a[0][0])
-            found = show(v)[:100]
-            m = as_map(v)
-            if m:
-                bv, body, base, ifs = m
-                ok = body == ("attr", bv, "name") and not ifs and base == ("call", ("global", "sorted"), (("attr", SELF, attr),), ())
-            if not ok and v[0] == "call" and v[1] == ("global", "sorted") and not v[3]:
-                m = as_map(v[2][0])
-                ok = bool(m) and m[1] == ("attr", m[0], "name") and m[2] == ("attr", SELF, attr)
-            if not ok:
-                # sorted(.., key=lambda s: s.name) is the same total order, spelled out
-                def by_name(c):
-                    if c[0] != "call" or c[1] != ("global", "sorted") or len(c[2]) != 1 or c[2][0] != ("attr", SELF, attr):
-                        return False
-                    kw = dict(c[3])
-                    k = kw.get("key")
-                    return set(kw) <= {"key"} and k is not None and k[0] == "lambda" and len(k[1]) == 1 and k[2] == ("attr", k[1][0], "name")
-                m = as_map(v)
-                ok = bool(m) and m[1] == ("attr", m[0], "name") and not m[3] and by_name(m[2])
-        # understood and wrong: the names listed in input order (no sort at all), or sorted by an explicit key other than the name;
-        # names produced by a helper / another construction are not read
-        understood = ok
-        if a and not ok:
-            v = simp(a[0][0])
-            m = as_map(v)
-            nosort = bool(m) and m[2] == ("attr", SELF, attr) and m[1] == ("attr", m[0], "name")
-            keyed = any(isinstance(x, tuple) and len(x) == 4 and x[0] == "call" and x[1] == ("global", "sorted") and any(k == "key" for k, _ in x[3]) for x in walk(v))
-            understood = nosort or keyed
-        if not understood:
-            ctx.unrec("R3", f"__format__:{nm} order", (RF, a[0][3] if a else ff.lineno), f"how the printed {attr} are ordered is not read: {found or 'no local built from self.' + attr}")
+        # by role: the locals whose FIRST value is a list of names of self.<attr> (intermediate locals -- the sorted species, the side
+        # itself -- are substituted into it by Flow); every such list must be in name order
+        cands = []
+        for lst in ffl.assigns.values():
+            if not lst:
+                continue
+            v = through_props(simp(lst[0][0]))
+            if any(x == ("attr", SELF, attr) for x in walk(v)):
+                cands.append((v, lst[0][3]))
+        verdicts = [(_names_order(v, attr), v, ln) for v, ln in cands]
+        read = [x for x in verdicts if x[0] is not None]
+        K = f"__format__:{nm} order"
+        if not read:
+            found = show(cands[0][0])[:100] if cands else "no local built from self." + attr
+            ctx.unrec("R3", K, (RF, cands[0][1] if cands else ff0.lineno), f"how the printed {attr} are ordered is not read: {found}")
             continue
-        ctx.check(ok, "R3", f"__format__:{nm} order", (RF, a[0][3] if a else ff.lineno),
+        ok = all(x[0] for x in read)
+        _, v, ln = next((x for x in read if not x[0]), read[0])
+        ctx.check(ok, "R3", K, (RF, ln),
                   f"formatted {attr} are listed in name order (a total order on the printed tokens, so permutations format identically)" if ok else
                   f"the {attr} are not sorted by the printed name itself: two species that tie under the sort key keep their input order and permuted duplicates format differently",
-                  expected=f"[x.name for x in sorted(self.{attr})]", found=found)
+                  expected=f"[x.name for x in sorted(self.{attr})]", found=show(v)[:100])
 
 
 def _flat_cases(v, conds=()):
@@ -691,7 +863,8 @@ def _r4(ctx, pkg, rule="R4"):
         pass
     ctx.saw(NF, "Network.remove_reaction")
     # type tests moved into a small predicate (a method of the class or a function of the module) are read through
-    fl = Flow(fn, NF, resolver=lambda name: pkg.resolve("Network", name)[1], func_resolver=lambda name: pkg.functions.get((NF, name)), raise_arms=True)
+    fl = Flow(fn, NF, resolver=lambda name: pkg.resolve("Network", name)[1], func_resolver=lambda name: pkg.functions.get((NF, name)), raise_arms=True,
+              proc_resolver=lambda name: pkg.resolve("Network", name)[1])
     RL = ("attr", SELF, "reaction_list")
     P = fn.args.args[1].arg if len(fn.args.args) > 1 else "reaction"
     R = ("param", P)
@@ -772,6 +945,12 @@ def _r4(ctx, pkg, rule="R4"):
             del undecided[:]
             if reachable(f.guards):
                 cases.append(("inplace", None, f, not undecided))
+        elif f.kind == "store" and f.target == "self.reaction_list" and f.index is not None and simp(f.index) == ("slice", ("const", None), ("const", None), ("const", None)):
+            # `self.reaction_list[:] = <list>`: the whole content replaced -- the same rebuild, kept in the same list object
+            for conds, leaf in _pred_cases(simp(f.value)):
+                del undecided[:]
+                if reachable(tuple(f.guards) + conds):
+                    cases.append(("rebuild", leaf, f, not undecided))
         elif (f.kind == "delete" and f.target.replace(" ", "").startswith("self.reaction_list")) or (f.kind in ("store", "augstore") and f.target == "self.reaction_list"):
             del undecided[:]
             if reachable(f.guards):
@@ -1010,6 +1189,8 @@ def _r4_callers(ctx, pkg, rule="R4"):
             for c in ast.walk(fn):
                 if isinstance(c, ast.Call) and isinstance(c.func, ast.Attribute) and c.func.attr == "remove_reaction" and c.args:
                     a = c.args[0]
+                    while isinstance(a, ast.Call) and isinstance(a.func, ast.Name) and a.func.id in ("list", "sorted", "tuple", "set") and len(a.args) == 1 and not a.keywords:
+                        a = a.args[0]           # the same positions
                     got = None
                     if isinstance(a, ast.Name) and a.id in names:
                         got = names[a.id]
@@ -1211,4 +1392,87 @@ BENIGN += [
     {"name": "removal-by-position-through-a-set", "file": NF, "old": _RM,
      "new": "        elif isinstance(reaction, list) and all(isinstance(r, int) for r in reaction):\n"
             "            self.reaction_list = [r for i, r in enumerate(self.reaction_list) if i not in set(reaction)]\n"},
+]
+
+# ---- wave 4: everyday refactors of the anchored methods (helpers extracted / inlined, guard clauses, idioms) ----
+_RN = "        rnames = [x.name for x in sorted(self.reactants)]\n        pnames = [x.name for x in sorted(self.products)]\n"
+_FMT = "    def __format__(self, form: str) -> str:\n"
+_CLASSR = "class Reaction(Component):\n"
+_FDR = "    def find_duplicate_reaction(self, mode: str = None)"
+BENIGN += [
+    {"name": "format-names-in-static-helper", "edits": [
+        {"file": RF, "old": _RN, "new": "        rnames = self._sorted_names(self.reactants)\n        pnames = self._sorted_names(self.products)\n"},
+        {"file": RF, "old": _FMT, "new": "    @staticmethod\n    def _sorted_names(species):\n        return [x.name for x in sorted(species)]\n\n" + _FMT}]},
+    {"name": "format-names-in-module-helper", "edits": [
+        {"file": RF, "old": _RN, "new": "        rnames = _sorted_names(self.reactants)\n        pnames = _sorted_names(self.products)\n"},
+        {"file": RF, "old": _CLASSR, "new": "def _sorted_names(species):\n    return [x.name for x in sorted(species)]\n\n\n" + _CLASSR}]},
+    {"name": "format-sorted-species-in-locals", "file": RF, "old": _RN,
+     "new": "        reactants = sorted(self.reactants)\n        products = sorted(self.products)\n        rnames = [x.name for x in reactants]\n        pnames = [x.name for x in products]\n"},
+    {"name": "format-names-sorted-by-attrgetter-name", "edits": [
+        {"file": RF, "old": _RN, "new": "        rnames = [x.name for x in sorted(self.reactants, key=attrgetter(\"name\"))]\n        pnames = [x.name for x in sorted(self.products, key=attrgetter(\"name\"))]\n"},
+        {"file": RF, "old": "from collections import Counter\n", "new": "from collections import Counter\nfrom operator import attrgetter\n"}]},
+    {"name": "format-names-in-properties", "edits": [
+        {"file": RF, "old": _RN, "new": "        rnames = self._rnames\n        pnames = self._pnames\n"},
+        {"file": RF, "old": _FMT, "new": "    @property\n    def _rnames(self):\n        return [x.name for x in sorted(self.reactants)]\n\n    @property\n    def _pnames(self):\n        return [x.name for x in sorted(self.products)]\n\n" + _FMT}]},
+    {"name": "hash-multiset-in-module-helper", "edits": [
+        {"file": RF, "old": _HASH, "new": "        return hash((_multiset(self.reactants), _multiset(self.products)))\n"},
+        {"file": RF, "old": _CLASSR, "new": "def _multiset(species):\n    return frozenset(Counter(species).items())\n\n\n" + _CLASSR}]},
+    {"name": "hash-key-in-property", "edits": [
+        {"file": RF, "old": _HASH, "new": "        return hash(self._sides)\n"},
+        {"file": RF, "old": _FMT, "new": "    @property\n    def _sides(self):\n        return (frozenset(Counter(self.reactants).items()), frozenset(Counter(self.products).items()))\n\n" + _FMT}]},
+    {"name": "rpeq-comparison-in-static-helper", "edits": [
+        {"file": RF, "old": _RPEQ, "new": "        return self._same_species(self.reactants, o.reactants) and self._same_species(self.products, o.products)"},
+        {"file": RF, "old": _FMT, "new": "    @staticmethod\n    def _same_species(a, b):\n        return Counter(a) == Counter(b)\n\n" + _FMT}]},
+    {"name": "rpeq-negated-disjunction", "file": RF, "old": _RPEQ,
+     "new": "        return not (Counter(self.reactants) != Counter(o.reactants) or Counter(self.products) != Counter(o.products))"},
+    {"name": "first-built-by-loop-with-guard-clause", "file": NF, "old": _FIRST,
+     "new": "        first = []\n        for idxes in seen.values():\n            if len(idxes) < 2:\n                continue\n            first.append(reactions[idxes[0]])\n"},
+    {"name": "check-list-in-module-helper-and-format-call", "edits": [
+        {"file": NF, "old": "        check_list = reactions\n\n        if mode == \"brief\":\n            check_list = [Reaction(re.reactants, re.products) for re in reactions]\n"
+                            "        elif mode is not None:\n            check_list = [f\"{react:{mode}}\" for react in reactions]\n", "new": "        check_list = _check_keys(reactions, mode)\n"},
+        {"file": NF, "old": _FACT, "new": "def _check_keys(reactions, mode):\n    if mode == \"brief\":\n        return [Reaction(re.reactants, re.products) for re in reactions]\n    if mode is not None:\n"
+                                          "        return [format(react, mode) for react in reactions]\n    return list(reactions)\n\n\n" + _FACT}]},
+    {"name": "table-filled-with-setdefault", "file": NF, "old": _LOOP,
+     "new": "            if chk in seen:\n                dupes.append(reactions[idx])\n                dupidx.append(idx)\n            seen.setdefault(chk, []).append(idx)\n"},
+    {"name": "removal-loop-with-guard-clause", "file": NF, "old": _RM,
+     "new": "        elif isinstance(reaction, list) and all(isinstance(r, int) for r in reaction):\n            kept = []\n            for idx, r in enumerate(self.reaction_list):\n                if idx in reaction:\n"
+            "                    continue\n                kept.append(r)\n            self.reaction_list = kept\n"},
+    {"name": "removal-in-procedure-helper", "edits": [
+        {"file": NF, "old": _RM, "new": "        elif isinstance(reaction, list) and all(isinstance(r, int) for r in reaction):\n            self._drop_positions(reaction)\n"},
+        {"file": NF, "old": _FDR, "new": "    def _drop_positions(self, positions):\n        self.reaction_list = [r for idx, r in enumerate(self.reaction_list) if idx not in positions]\n\n" + _FDR}]},
+    {"name": "removal-by-slice-assignment", "file": NF, "old": _RM,
+     "new": "        elif isinstance(reaction, list) and all(isinstance(r, int) for r in reaction):\n            self.reaction_list[:] = [r for idx, r in enumerate(self.reaction_list) if idx not in reaction]\n"},
+    {"name": "caller-passes-a-copy-of-the-positions", "file": "naunet/console/commands/extend.py", "old": "            net.remove_reaction(dupidx)", "new": "            net.remove_reaction(list(dupidx))"},
+]
+MUTANTS += [
+    # the same defects in the spellings read since wave 4
+    {"name": "format-static-helper-unsorted", "edits": [
+        {"file": RF, "old": _RN, "new": "        rnames = self._sorted_names(self.reactants)\n        pnames = self._sorted_names(self.products)\n"},
+        {"file": RF, "old": _FMT, "new": "    @staticmethod\n    def _sorted_names(species):\n        return [x.name for x in species]\n\n" + _FMT}], "rules": ["R3"]},
+    {"name": "format-sorted-by-attrgetter-basename", "edits": [
+        {"file": RF, "old": _RN, "new": "        rnames = [x.name for x in sorted(self.reactants, key=attrgetter(\"basename\"))]\n        pnames = [x.name for x in sorted(self.products)]\n"},
+        {"file": RF, "old": "from collections import Counter\n", "new": "from collections import Counter\nfrom operator import attrgetter\n"}], "rules": ["R3"]},
+    {"name": "hash-property-reads-alpha", "edits": [
+        {"file": RF, "old": _HASH, "new": "        return hash(self._sides)\n"},
+        {"file": RF, "old": _FMT, "new": "    @property\n    def _sides(self):\n        return (frozenset(Counter(self.reactants).items()), frozenset(Counter(self.products).items()), self.alpha)\n\n" + _FMT}], "rules": ["R1"]},
+    {"name": "hash-module-helper-keeps-order", "edits": [
+        {"file": RF, "old": _HASH, "new": "        return hash((_multiset(self.reactants), _multiset(self.products)))\n"},
+        {"file": RF, "old": _CLASSR, "new": "def _multiset(species):\n    return tuple(sorted(species))\n\n\n" + _CLASSR}], "rules": ["R1"]},
+    {"name": "rpeq-static-helper-compares-sets", "edits": [
+        {"file": RF, "old": _RPEQ, "new": "        return self._same_species(self.reactants, o.reactants) and self._same_species(self.products, o.products)"},
+        {"file": RF, "old": _FMT, "new": "    @staticmethod\n    def _same_species(a, b):\n        return set(a) == set(b)\n\n" + _FMT}], "rules": ["R1"]},
+    {"name": "rpeq-negated-disjunction-one-side", "file": RF, "old": _RPEQ,
+     "new": "        return not (Counter(self.reactants) != Counter(o.reactants) and Counter(self.products) != Counter(o.products))", "rules": ["R1"]},
+    {"name": "first-loop-guard-clause-needs-three", "file": NF, "old": _FIRST,
+     "new": "        first = []\n        for idxes in seen.values():\n            if len(idxes) < 3:\n                continue\n            first.append(reactions[idxes[0]])\n", "rules": ["R3"]},
+    {"name": "setdefault-table-entered-before-the-test", "file": NF, "old": _LOOP,
+     "new": "            seen.setdefault(chk, []).append(idx)\n            if chk in seen:\n                dupes.append(reactions[idx])\n                dupidx.append(idx)\n", "rules": ["R3"], "accept_error": True},
+    {"name": "removal-loop-guard-clause-inverted", "file": NF, "old": _RM,
+     "new": "        elif isinstance(reaction, list) and all(isinstance(r, int) for r in reaction):\n            kept = []\n            for idx, r in enumerate(self.reaction_list):\n                if idx not in reaction:\n"
+            "                    continue\n                kept.append(r)\n            self.reaction_list = kept\n", "rules": ["R4"]},
+    {"name": "removal-procedure-helper-by-value", "edits": [
+        {"file": NF, "old": _RM, "new": "        elif isinstance(reaction, list) and all(isinstance(r, int) for r in reaction):\n            self._drop_positions(reaction)\n"},
+        {"file": NF, "old": _FDR, "new": "    def _drop_positions(self, positions):\n        self.reaction_list = [r for r in self.reaction_list if r not in positions]\n\n" + _FDR}], "rules": ["R4"]},
+    {"name": "removal-slice-assignment-idx-in", "file": NF, "old": _RM,
+     "new": "        elif isinstance(reaction, list) and all(isinstance(r, int) for r in reaction):\n            self.reaction_list[:] = [r for idx, r in enumerate(self.reaction_list) if idx in reaction]\n", "rules": ["R4"]},
 ]
